@@ -71,6 +71,7 @@ func checkC20(env *kernel.Env) {
 		}
 		return out
 	}
+	lastCls := "last-insert-id-wrong"
 	checkLast := func(x *sx, who string) {
 		r := x.s.Exec("SELECT LAST_INSERT_ID()")
 		if r.Err != nil || len(r.Rows) != 1 {
@@ -78,7 +79,7 @@ func checkC20(env *kernel.Env) {
 			return
 		}
 		if got := toVal(r.Rows[0][0]).(int64); got != x.lastID {
-			env.Fail("last-insert-id", "last-insert-id-wrong", "%s: LAST_INSERT_ID() = %d, the first generated value of its last successful generating insert is %d", who, got, x.lastID)
+			env.Fail("last-insert-id", lastCls, "%s: LAST_INSERT_ID() = %d, the first generated value of its last successful generating insert is %d", who, got, x.lastID)
 		}
 	}
 	for step := 0; step < steps && !env.Failed(); step++ {
@@ -128,6 +129,14 @@ func checkC20(env *kernel.Env) {
 				failRow = T.Draw(n)
 				rows[failRow].v = minKey(usedV)
 			}
+			// INSERT IGNORE: conflicting rows are skipped, the others are stored
+			ignore := T.Bool(1, 4)
+			if ignore && failRow >= 0 && rows[failRow].gen && env.Avoid("ignore-skipped-generated-row-insert-id") {
+				// known finding: when IGNORE skips the row that was to generate the
+				// statement's first value, the insert id is taken from the next stored row
+				rows[failRow].v = nextV + 1000 + int64(step)
+				failRow = -1
+			}
 			var parts []string
 			for _, r := range rows {
 				if omitID {
@@ -136,11 +145,15 @@ func checkC20(env *kernel.Env) {
 					parts = append(parts, fmt.Sprintf("(%s,%d)", r.idLit, r.v))
 				}
 			}
-			q := "INSERT INTO t (id, v) VALUES " + strings.Join(parts, ",")
-			if omitID {
-				q = "INSERT INTO t (v) VALUES " + strings.Join(parts, ",")
+			verb := "INSERT"
+			if ignore {
+				verb = "INSERT IGNORE"
 			}
-			inject := T.Bool(1, 8)
+			q := verb + " INTO t (id, v) VALUES " + strings.Join(parts, ",")
+			if omitID {
+				q = verb + " INTO t (v) VALUES " + strings.Join(parts, ",")
+			}
+			inject := !ignore && T.Bool(1, 8)
 			if inject {
 				w.Arm(T.Range(1, n), "")
 			}
@@ -171,11 +184,27 @@ func checkC20(env *kernel.Env) {
 				prevMax = maxStored
 			}
 			firstGen, lastGen := int64(0), int64(0)
+			runMax := prevMax // greatest id stored before the current row, earlier rows of this statement included
 			for i, r := range rows {
+				if ignore && i == failRow {
+					env.Probe("ignored-row-skipped")
+					continue // its v duplicates an existing row's: skipped by IGNORE (after[v] is that older row)
+				}
 				id, ok := after[r.v]
 				if !ok {
+					if ignore && !r.gen {
+						env.Probe("ignored-row-skipped")
+						continue // a conflicting row skipped by IGNORE (explicit ids may collide)
+					}
 					env.Fail("insert-stored", "row-missing", "%s succeeded but row %d (v=%d) is not in the table", q, i, r.v)
 					break
+				}
+				if r.gen && id <= runMax && id > prevMax {
+					env.Fail("generated-greater", "generated-not-greater-than-earlier-row", "%s: generated id %d for row %d is not greater than %d, an id stored by an earlier row of the same statement", q, id, i, runMax)
+					break
+				}
+				if id > runMax {
+					runMax = id
 				}
 				if !r.gen {
 					continue
@@ -217,12 +246,20 @@ func checkC20(env *kernel.Env) {
 			}
 			if firstGen != 0 {
 				if int64(res.InsertID) != firstGen {
-					env.Fail("insert-id", "insert-id-not-first-generated", "%s: OkResult.InsertID = %d, the first generated value is %d", q, res.InsertID, firstGen)
+					cls := "insert-id-not-first-generated"
+					if ignore && failRow >= 0 && rows[failRow].gen {
+						cls = "insert-id-after-skipped-generated-row"
+					}
+					env.Fail("insert-id", cls, "%s: OkResult.InsertID = %d, the first generated value is %d", q, res.InsertID, firstGen)
 					break
 				}
 				x.lastID = firstGen
 			}
+			if ignore && failRow >= 0 && rows[failRow].gen {
+				lastCls = "insert-id-after-skipped-generated-row"
+			}
 			checkLast(x, who)
+			lastCls = "last-insert-id-wrong"
 			for _, o := range sess {
 				if o != x && holder() == nil {
 					checkLast(o, o.s.Name) // untouched by another session's insert
